@@ -19,7 +19,7 @@ META = {
         "1900 date system (assumed; probed natively by C08.workbook_readback)",
         "category depth > 26 (categories_ref computes the right column with chr(ord('A')+depth-1)); stated domain assumption depth <= 26",
     ],
-    "trusted_base": ["XlsxWriter cell addressing", "datetime.date ordinal arithmetic", "Python %-formatting / str.format render ints canonically"],
+    "trusted_base": ["XlsxWriter writes a number with 16 significant digits (%.16G): cache and cell are compared to that precision", "XlsxWriter cell addressing", "datetime.date ordinal arithmetic", "Python %-formatting / str.format render ints canonically"],
 }
 
 
@@ -637,6 +637,23 @@ def _workbook_readback(tier="quick", seed=0):
         for i in range(ns_):
             cd.add_series("S%d" % i, (i, i + 0.5, None if i % 3 == 0 else i + 1))
         cases.append(("category x%d series" % ns_, XL_CHART_TYPE.COLUMN_CLUSTERED, cd))
+    # values that need many significant digits, exponents, negative zero-ish magnitudes: cache and cell hold the same number
+    PRECISE = (1234567, 2023.125, 1e-7, 123456.789012345, -0.000123456789, 1e21, 0.1 + 0.2, 2 ** 53 + 1.0, -98765432.1, 3)
+    cd = CategoryChartData()
+    cd.categories = ["c%d" % i for i in range(len(PRECISE))]
+    cd.add_series("precise", PRECISE)
+    cd.add_series("precise reversed", tuple(reversed(PRECISE)))
+    cases.append(("values with many significant digits", XL_CHART_TYPE.LINE, cd))
+    xy = XyChartData()
+    sp = xy.add_series("precise xy")
+    for a, b in zip(PRECISE, reversed(PRECISE)):
+        sp.add_data_point(a, b)
+    cases.append(("xy values with many significant digits", XL_CHART_TYPE.XY_SCATTER, xy))
+    bb = BubbleChartData()
+    sp = bb.add_series("precise bubble")
+    for a, b in zip(PRECISE, reversed(PRECISE)):
+        sp.add_data_point(a, b, abs(a) + 1.000001)
+    cases.append(("bubble values with many significant digits", XL_CHART_TYPE.BUBBLE, bb))
     cd = CategoryChartData()
     g1 = cd.add_category("G1")
     g1.add_sub_category("x")
@@ -721,7 +738,8 @@ def _workbook_readback(tier="quick", seed=0):
                 idx = int(pt.get("idx"))
                 v = pt.xpath("c:v/text()", namespaces=cns)[0]
                 cell = cells.get(coords[idx])
-                same = (str(cell) == v) or (isinstance(cell, float) and float(v) == cell)
+                # a workbook number is stored by XlsxWriter with 16 significant digits ("%.16G"): agreement is to that precision
+                same = (str(cell) == v) or (isinstance(cell, float) and (float(v) == cell or float("%.16g" % float(v)) == cell))
                 if not same:
                     bad = "%s: %s pt idx=%d cached %r, workbook cell %r holds %r" % (label, f, idx, v, coords[idx], cell)
                     break
